@@ -59,6 +59,18 @@ CHECKS = {
              '(open finding F02).',
         technique='exhaustive truncation-offset fault injection + CountingReader/StepClock budgets + prefix oracle '
                   'against the full-file run'),
+    'C08': dict(
+        category='exploration', design_ref='DESIGN.md section 4, C08',
+        text='Runtime monitoring: texts of every byte length 0..184 / 0..200 / 0..63 (ASCII and UTF-8 with a character '
+             'straddling each record boundary) in the kernel\'s own chunking are fed to the real TracesParser '
+             'stand-alone, inside every discovered path-taking syscall, with unrelated same-thread records between the '
+             'chunks and with 1..6 lookups per window; the traces recorded at the feed boundary must contain exactly '
+             'one lookup/string/name trace per item with exactly the text (and first vnode id), none for a lone '
+             'continuation record, the tables must hold the text and enclosing calls must show the paths in order.',
+        note='Trusted: vlib/wire.py chunkers (restated from kdebug_lookup_gen_events / kernel_debug_string*). Texts '
+             'contain no NUL or double quote. Path-taking decoders and their arity are discovered by observation.',
+        technique='boundary-complete text workload in kernel chunking + offline checker over the recorded trace '
+                  'history (exactly-once, exact text, no-continuation-trace, table state)'),
 }
 
 PENDING_REASON = 'check not yet built in this session (design in DESIGN.md section 4); not claimed until it exists'
